@@ -8,7 +8,7 @@
  * heap copy):
  *
  *   hmac_*_final case   for every message length m in {0,1,B-1,B,B+1,2B}: MAC computed with one
- *                       update, with m one-byte updates (m <= B+1) and with empty|B-1|empty|rest
+ *                       update, with m one-byte updates (m <= B+1; quick: m = 1, B+1) and with empty|B-1|empty|rest
  *                       updates must equal the reference; afterwards the keyed pad and the
  *                       sensitive fields of the hash context are zero.
  *   one-shot cases      hmac_X(), X_hmac_get_digest(), X_hmac_get_digest_str() for the same m.
@@ -159,8 +159,9 @@ case_final(int ai, int v, size_t k) {
 		h_poison(A, W, 1, 0x00);
 		snprintf(how, sizeof(how), "mlen=%zu one update", m);
 		bad |= do_final(A, W, want, 1, how);
-		/* byte by byte (the lengths up to one block + 1; longer ones add nothing C04 does not cover) */
-		if (m <= A->B + 1) {
+		/* byte by byte (the lengths up to one block + 1; longer ones add nothing C04 does not cover;
+		 * the quick level keeps only 1 and B+1) */
+		if (m <= A->B + 1 && (H_LEVEL > 0 || 1 == m || A->B + 1 == m)) {
 			memcpy(W, H0, A->hctx_size);
 			for (i = 0; i < m; i ++) {
 				A->h_update(W, src + i, 1);
